@@ -4,12 +4,33 @@ import json, os
 V = os.path.dirname(os.path.dirname(os.path.abspath(__file__)))
 
 P = {
+ "C01": dict(tech="differential round-trip monitor (generator -> repo writer -> repo reader and -> independent decoder written from the format specifications)",
+             text="Runtime monitoring: generated tile sets (sparse/dense, zoom gaps, 256-grid and level borders, duplicates, payload sizes around 1000 bytes, > 16384 tiles) are written with the repo's writers to all five formats and every accepted (format, compression) pair; the result is read back through the repo's reader (lookups over a superset of coordinates + streams of the advertised level boxes) and through an independent decoder; both must give exactly the source mapping and declaration. Held on the generated executions only.",
+             note="Trusted: the independent decoders (harness/src/codec), brotli/flate2/rusqlite crates. MBTiles only with its four legal pairs, PMTiles with its five tile types.", ref="4/C01"),
+ "C02": dict(tech="differential monitor stream-vs-lookups over a zoo of sources (5 readers x own/foreign encodings, converting reader, every pipeline operation and nestings) x exhaustive small boxes + sampled border boxes, on single- and multi-threaded runtimes",
+             text="Runtime monitoring: for every source kind and box (every box of zoom 0..3, both empty encodings, boxes across block / coverage borders, outside, absent levels) the collected stream is compared with single-tile lookups: same set, once each, byte-identical, nothing outside, no panic. Runs alternate between current-thread and 8-worker runtimes plus 8 concurrent streams.",
+             note="Lookups are the reference. Boxes capped at 70 000 coordinates; for boxes > 4096 coordinates the lookup side is sampled around stored tiles.", ref="4/C02"),
+ "C13": dict(tech="history monitor at the client boundary (solo results vs concurrent results, offset-encoding file content, in-flight counter); TSan / Miri flavours in thorough",
+             text="Runtime monitoring: 2..16 OS threads (own runtimes) or tokio tasks (16 workers) issue pre-planned read_range / get_tile_data calls on one shared DataReaderFile / versatiles / pmtiles / tar reader; every result is compared with the same call executed alone. Position-dependent contents make a wrong result name the call it was mixed up with. Overlap actually achieved is measured.",
+             note="Interleavings are those the OS scheduler produced (max in-flight reported), not all.", ref="4/C13"),
+ "C14": dict(tech="schedule-forcing monitor: turnstile callbacks force all n! completion orders (n<=5), adversarial delays for long streams; payloads embed their coordinate; TSan / Miri flavours in thorough",
+             text="Runtime monitoring: map_blob_parallel, filter_map_blob_parallel and from_coord_iter_parallel are driven with every completion order for up to 5 items (all retain masks for n<=4), adversarial delay patterns for 0..10^4 items on 2..16 workers, and buffered / sequential consumers with 7 buffer sizes; the output multiset must be exactly {(coordinate, f(input))}.",
+             note="Completion order is the order in which the callbacks returned. Exhaustive only for n<=5.", ref="4/C14"),
  "C15": dict(tech="reference-model monitor (64-bit set model exhaustive z<=3 incl. all ordered pairs; interval/counting model sampled to z31; independent Mercator model with tolerance band); Miri flavour in thorough",
              text="Runtime monitoring: every TileBBox / TileBBoxPyramid operation is executed on all boxes of zoom 0..3 (all ordered pairs for the binary ones, 4 empty encodings per level) and on border-biased samples up to zoom 31 and compared with an independent set model; geographic conversion is compared with an independent Mercator model. Exhaustive only for zoom<=3; beyond that 'held on the sampled executions'.",
              note="Trusted: the harness's set/interval/Mercator models, rustc overflow checks (dev profile). Known finding: geo round trip off by one row at zoom 30/31 (f64 latitude resolution).", ref="4/C15"),
+ "C16": dict(tech="differential monitor: independent encoders using the layout freedoms of the specifications -> repo readers (lookups, streams, exact coverage, declaration)",
+             text="Runtime monitoring: independent encoders for versatiles v02, PMTiles v3, MBTiles, tar and directory emit valid containers that use features the repo's writers never emit (sparse block index, partial blocks, shuffled blocks, shared ranges, run lengths, shared offsets, 0..2 leaf levels, unclustered data, internal compression none/gzip/brotli, zoom gaps, './'-less members, three metadata names); the repo readers must open them and return exactly the encoded tiles, coverage and declaration.",
+             note="Trusted: the independent encoders (each file is first cross-checked with the independent decoder). zstd excluded (documented as unsupported).", ref="4/C16"),
+ "C18": dict(tech="generator + renderer round trip monitor over syntax trees (whitespace / quoting / list-layout variants), certain-invalid mutations, factory rejections",
+             text="Runtime monitoring: random syntax trees (depth<=4) are rendered with four whitespace/quoting styles; parse_vpl(render(t)) must equal t (through the `verif` re-export). One certain syntax error injected into a valid text, unknown operations, missing and mistyped parameters must be rejected with an error, never accepted, never a panic.",
+             note="Documented syntax = help.md + the value forms named in the property. Empty quoted strings / empty lists are not generated. Repeated keys must retain all values in order.", ref="4/C18"),
+ "C20": dict(tech="history monitor against a map model (capacities 1..64, 10^3..10^5 operations, observable state from Debug + return values); Miri flavour in thorough",
+             text="Runtime monitoring: random add / get / get_or_set(Ok|Err) histories are applied to LimitedCache<u64,u64>; after every operation length<=max_length, values returned were stored under that key, read-your-write holds, loader errors are propagated without side effects, and the most recently used entry survives the next eviction (capacity >= 2).",
+             note="Evictions are inferred from the observable length; 'just used' = most recent hit or insertion.", ref="4/C20"),
 }
 
-IMPLEMENTED = ["C15"]
+IMPLEMENTED = ["C01","C02","C13","C14","C15","C16","C18","C20"]
 NOT_YET = {}
 
 def main():
